@@ -29,6 +29,20 @@ fn run_two_files(f1: String, f2: String, inits: &[(String, Decimal, Decimal)]) -
     })
 }
 
+/// Re-runs a case from its protocol lines (`case ... cut= annual= dflt=` + `row` lines).
+pub fn replay(lines: &[String], out: &mut String) -> bool {
+    let head: Vec<&str> = lines[0].split_whitespace().collect();
+    let kv = |k: &str| head.iter().find_map(|t| t.strip_prefix(&format!("{}=", k)).map(|v| v.to_string()));
+    let (Some(cut), Some(annual), Some(dflt)) = (kv("cut"), kv("annual"), kv("dflt")) else { return false };
+    let (Ok(cut), Ok(dflt)) = (cut.parse::<i32>(), dflt.parse::<usize>()) else { return false };
+    let Some((names, rows)) = app::parse_rows(dflt, &lines[1..]) else { return false };
+    if rows.is_empty() {
+        return false;
+    }
+    run_rows(head[1], names, rows, cut, annual == "1", out);
+    true
+}
+
 pub fn run_case(id: &str, r: &mut Rng, out: &mut String) {
     let mut names = vec!["Default".to_string()];
     // histories without manual SFL entries and without errors are the domain of C10
@@ -41,6 +55,15 @@ pub fn run_case(id: &str, r: &mut Rng, out: &mut String) {
     if rows.is_empty() {
         return;
     }
+    // summary date: around a row boundary
+    let k = r.below(rows.len() as u64) as usize;
+    let off = *r.pick(&[0i32, 0, 0, 1, -1, 5, 29, 30, 31, -30]);
+    let cut = jd(rows[k].settlement_date) + off;
+    let annual = r.chance(40);
+    run_rows(id, names, rows, cut, annual, out);
+}
+
+fn run_rows(id: &str, names: Vec<String>, rows: Vec<Tx>, cut: i32, annual: bool, out: &mut String) {
     let case = app::AppCase { names: names.clone(), rows: rows.clone(), inits: vec![], cuts: vec![] };
     let uni = app::universe(&case);
     let full = app::run_app(&rows, &[], &[]);
@@ -51,11 +74,6 @@ pub fn run_case(id: &str, r: &mut Rng, out: &mut String) {
     if !ok {
         return; // C10 quantifies over error-free histories
     }
-    // summary date: around a row boundary
-    let k = r.below(rows.len() as u64) as usize;
-    let off = *r.pick(&[0i32, 0, 0, 1, -1, 5, 29, 30, 31, -30]);
-    let cut = jd(rows[k].settlement_date) + off;
-    let annual = r.chance(40);
     // what acb --summarize-before does
     let readers = vec![DescribedReader::from_string("all.csv".to_string(), app::txs_to_csv(&rows))];
     let options = Options { split_annual_summary_gains: annual, ..Options::default() };
